@@ -299,7 +299,9 @@ class _ScandirResult:
 
 
 class _FakePopen:
-    """The only child process the tool starts is `git describe`; its outcome is planned."""
+    """The child processes the tool starts are git commands.  `git describe` has a planned outcome;
+    `git ls-files` follows the planned state of the tree with respect to git (tracked / not a
+    repository / untracked inside an outer repository); anything else goes to the real git."""
 
     sim = None  # set per run
 
@@ -321,28 +323,71 @@ class _FakePopen:
         self._encoding = kw.get("encoding") or "utf-8"
         self._errors = kw.get("errors") or "strict"
         out, rc = b"", 0
-        if outcome.startswith("ok:"):
-            out = outcome[3:].encode("utf-8") + b"\n"
-        elif outcome == "empty":
-            out = b""
-        elif outcome == "exit128":
-            rc = 128
-            sim.probe("git_nonzero_exit")
-        elif outcome == "exit1":
-            rc = 1
-            sim.probe("git_nonzero_exit")
-        elif outcome == "signal":
-            rc = -11
-            sim.probe("git_nonzero_exit")
-        elif outcome == "badbytes":
-            out = b"v0.4.1-\xff\xfe-dirty\n"
-            sim.delivered.append({"op": "git", "kind": "badbytes"})
-        elif outcome == "enoent":
+        # which git command?  (skip global options such as -C <dir> / -c k=v)
+        rest = [str(a) for a in argv[1:]]
+        sub = None
+        i = 0
+        while i < len(rest):
+            if rest[i] in ("-C", "-c", "--git-dir", "--work-tree"):
+                i += 2
+                continue
+            if rest[i].startswith("-"):
+                i += 1
+                continue
+            sub = rest[i]
+            rest = rest[i + 1:]
+            break
+        state = sim.plan["env"].get("git_repo", "tracked")
+        if outcome == "enoent":
             sim.delivered.append({"op": "git", "kind": "enoent"})
             raise FileNotFoundError(_errno.ENOENT, os.strerror(_errno.ENOENT), "git")
-        elif outcome == "eacces":
+        if outcome == "eacces":
             sim.delivered.append({"op": "git", "kind": "eacces"})
             raise PermissionError(_errno.EACCES, os.strerror(_errno.EACCES), "git")
+        if sub == "describe" or sub is None:
+            if state == "norepo" and (outcome.startswith("ok:") or outcome == "empty"):
+                outcome = "exit128"  # no repository: describe cannot succeed
+            if outcome.startswith("ok:"):
+                out = outcome[3:].encode("utf-8") + b"\n"
+            elif outcome == "empty":
+                out = b""
+            elif outcome == "exit128":
+                rc = 128
+                sim.probe("git_nonzero_exit")
+            elif outcome == "exit1":
+                rc = 1
+                sim.probe("git_nonzero_exit")
+            elif outcome == "signal":
+                rc = -11
+                sim.probe("git_nonzero_exit")
+            elif outcome == "badbytes":
+                out = b"v0.4.1-\xff\xfe-dirty\n"
+                sim.delivered.append({"op": "git", "kind": "badbytes"})
+        elif sub == "ls-files":
+            # a small model of the three states a source tree can be in with respect to git
+            sim.probe("git_ls_files_" + state)
+            if state == "norepo":
+                rc = 128
+            elif state == "untracked":
+                out = b""  # inside some outer repository that does not track these files
+            else:
+                sep = b"\0" if "-z" in rest else b"\n"
+                specs = rest[rest.index("--") + 1:] if "--" in rest else [a for a in rest if not a.startswith("-")]
+                names = []
+                for spec in specs or ["."]:
+                    names += sim.tracked_files(spec)
+                out = b"".join(n.encode("utf-8") + sep for n in sorted(set(names)))
+        else:
+            # any other git command: the real git, in the real repository (a deterministic
+            # function of the tree); without a repository it fails like the real one
+            sim.probe("git_passthrough")
+            if state == "norepo":
+                rc = 128
+            else:
+                real = sim.real_popen(args, **dict(kw, cwd=kw.get("cwd") or sim.repo))
+                o, e = real.communicate()
+                out = o if isinstance(o, bytes) else (o or "").encode("utf-8")
+                rc = real.returncode
         self._out = out
         self._rc = rc
         self.returncode = None
@@ -386,8 +431,71 @@ class _FakePopen:
         return False
 
 
+class Overlay:
+    """Files the tool itself creates, modifies or deletes.  Nothing the tool writes ever reaches
+    the real file system; within one *session* (a sequence of invocations on the same simulated
+    machine) what one invocation wrote is what the next one finds."""
+
+    def __init__(self):
+        self.files = {}  # absolute path -> bytes
+        self.mtime = {}  # absolute path -> (seconds since epoch, as int)
+        self.removed = set()
+        self.dirs = set()
+        self.tick = 0
+
+    def stamp(self, ap):
+        self.tick += 1
+        self.mtime[ap] = 1_900_000_000 + self.tick
+
+    def digest(self):
+        h = hashlib.sha256()
+        for k in sorted(self.files):
+            h.update(k.encode())
+            h.update(hashlib.sha256(self.files[k]).digest())
+        for k in sorted(self.removed):
+            h.update(b"-" + k.encode())
+        return h.hexdigest()[:16]
+
+
+class _OverlayWriter(io.BytesIO):
+    def __init__(self, overlay, ap, initial=b"", append=False):
+        super().__init__()
+        self._ov = overlay
+        self._ap = ap
+        if initial:
+            self.write(initial)
+            if not append:
+                self.seek(0)
+
+    def close(self):
+        if not self.closed:
+            self._ov.files[self._ap] = self.getvalue()
+            self._ov.removed.discard(self._ap)
+            self._ov.stamp(self._ap)
+        super().close()
+
+
+class _SimStat:
+    """A stat result with some fields replaced (touched files, overlay files)."""
+
+    def __init__(self, real, **over):
+        self._real = real
+        self._over = over
+
+    def __getattr__(self, k):
+        o = self.__dict__["_over"]
+        if k in o:
+            return o[k]
+        return getattr(self.__dict__["_real"], k)
+
+    def __getitem__(self, i):
+        names = ("st_mode", "st_ino", "st_dev", "st_nlink", "st_uid", "st_gid", "st_size", "st_atime", "st_mtime", "st_ctime")
+        v = getattr(self, names[i])
+        return int(v)
+
+
 class Sim:
-    def __init__(self, plan, twin=None, step_budget=DEFAULT_STEP_BUDGET, event_cap=DEFAULT_EVENT_CAP):
+    def __init__(self, plan, twin=None, overlay=None, step_budget=DEFAULT_STEP_BUDGET, event_cap=DEFAULT_EVENT_CAP):
         self.plan = plan
         self.repo = os.path.realpath(_tree.REPO)
         self.tool = os.path.realpath(_tree.tool_path())
@@ -405,6 +513,7 @@ class Sim:
         self.clock_reads = 0
         self.git_calls = 0
         self.repo_writes = []
+        self.overlay = overlay if overlay is not None else Overlay()
         self.access_count = {}
         faults = plan.get("faults") or []
         if faults and twin is None:
@@ -464,6 +573,31 @@ class Sim:
                 return f
         return None
 
+    def tracked_files(self, spec):
+        """What `git ls-files -- <spec>` prints for a fully tracked tree: every file below spec,
+        relative to the working directory, in the spelling git uses."""
+        top = os.path.normpath(os.path.join(self.cwd, spec))
+        out = []
+
+        def walk(d):
+            try:
+                with self.real_scandir(d) as it:
+                    ents = sorted(it, key=lambda e: e.name)
+            except OSError:
+                return
+            for e in ents:
+                if e.is_dir(follow_symlinks=False):
+                    if e.name not in (".git", "_build"):
+                        walk(e.path)
+                else:
+                    out.append(os.path.relpath(e.path, self.cwd))
+
+        if os.path.isdir(top):
+            walk(top)
+        elif os.path.lexists(top):
+            out.append(os.path.relpath(top, self.cwd))
+        return out
+
     def touch(self, rel):
         """Count an access (stat or open) to a project path; returns its 0-based index."""
         n = self.access_count.get(rel, 0)
@@ -484,15 +618,42 @@ class Sim:
         d, _, b = rel.rpartition("/")
         return b in self.plan["env"].get("extra_entries", {}).get(d, [])
 
+    def overlay_stat(self, path, rel):
+        ap = self.abspath(path)
+        ov = self.overlay
+        if ap in ov.removed:
+            self.log("stat", file=rel, removed_by_tool=True)
+            raise _oserror("ENOENT", os.fspath(path))
+        if ap in ov.files:
+            self.log("stat", file=rel, overlay=True)
+            m = ov.mtime.get(ap, 0)
+            return _SimStat(self.real_stat(self.tool), st_size=len(ov.files[ap]), st_mtime=float(m), st_mtime_ns=m * 10**9, st_ctime=float(m), st_ctime_ns=m * 10**9, st_mode=0o100644)
+        if ap in ov.dirs:
+            return self.real_stat(self.repo)
+        return None
+
+    def touched(self, rel, res):
+        """A header that was touched / re-saved between two invocations: newer mtime, same bytes."""
+        bump = self.plan["env"].get("touched", {}).get(rel)
+        if not bump:
+            return res
+        return _SimStat(res, st_mtime=res.st_mtime + bump, st_mtime_ns=res.st_mtime_ns + bump * 10**9)
+
     def sim_stat(self, path, *a, **kw):
         if isinstance(path, int) or kw.get("dir_fd") is not None:
             return self.real_stat(path, *a, **kw)
         rel = self.relproj(path)
         if rel is None or rel == ".":
+            ap = self.abspath(path)
+            if ap in self.overlay.files or ap in self.overlay.removed or ap in self.overlay.dirs:
+                return self.overlay_stat(path, ap)
             return self.real_stat(path, *a, **kw)
         if self.stray(rel):
             self.log("stat", file=rel, stray=True)
             return self.real_stat(self.repo if rel.endswith(".d") else self.tool)
+        ov_res = self.overlay_stat(path, rel)
+        if ov_res is not None:
+            return ov_res
         i = self.touch(rel)
         f = self.missing(rel, i)
         self.log("stat", file=rel, missing=bool(f))
@@ -501,7 +662,7 @@ class Sim:
                 f["_delivered"] = True
                 self.deliver(f, target=rel, via="stat")
             raise _oserror("ENOENT", os.fspath(path))
-        return self.real_stat(path, *a, **kw)
+        return self.touched(rel, self.real_stat(path, *a, **kw))
 
     def sim_lstat(self, path, *a, **kw):
         if isinstance(path, int) or kw.get("dir_fd") is not None:
@@ -512,6 +673,9 @@ class Sim:
         if self.stray(rel):
             self.log("lstat", file=rel, stray=True)
             return self.real_lstat(self.repo if rel.endswith(".d") else self.tool)
+        ov_res = self.overlay_stat(path, rel)
+        if ov_res is not None:
+            return ov_res
         i = self.touch(rel)
         f = self.missing(rel, i)
         self.log("lstat", file=rel, missing=bool(f))
@@ -520,7 +684,7 @@ class Sim:
                 f["_delivered"] = True
                 self.deliver(f, target=rel, via="lstat")
             raise _oserror("ENOENT", os.fspath(path))
-        return self.real_lstat(path, *a, **kw)
+        return self.touched(rel, self.real_lstat(path, *a, **kw))
 
     def sim_access(self, path, mode, *a, **kw):
         if isinstance(path, int) or kw.get("dir_fd") is not None:
@@ -585,9 +749,17 @@ class Sim:
         names = self.real_listdir(path)
         if names and isinstance(names[0], bytes):
             return names
+        names = self.with_overlay_entries(path, names)
         order, _ = self.ordered(rel, names)
         self.log("listdir", dir=rel, n=len(order), digest=hashlib.sha256("\0".join(order).encode()).hexdigest()[:12])
         return order
+
+    def with_overlay_entries(self, path, names):
+        ap = self.abspath(path)
+        ov = self.overlay
+        extra = [os.path.basename(f) for f in list(ov.files) + list(ov.dirs) if os.path.dirname(f) == ap]
+        gone = {os.path.basename(f) for f in ov.removed if os.path.dirname(f) == ap}
+        return sorted((set(names) | set(extra)) - gone)
 
     def sim_scandir(self, path="."):
         rel = self.relproj(path)
@@ -603,7 +775,7 @@ class Sim:
             raise _oserror(f["errno"], os.fspath(path))
         with self.real_scandir(path) as it:
             real = {e.name: e for e in it}
-        order, extra = self.ordered(rel, list(real))
+        order, extra = self.ordered(rel, self.with_overlay_entries(path, list(real)))
         self.log("scandir", dir=rel, n=len(order), digest=hashlib.sha256("\0".join(order).encode()).hexdigest()[:12])
         ents = [real[n] if n in real else _FakeDirEntry(os.fspath(path), n, n.endswith(".d")) for n in order]
         return _ScandirResult(ents)
@@ -613,12 +785,22 @@ class Sim:
         if isinstance(file, int):
             return self.real_open(file, mode, *a, **kw)
         rel = self.relproj(file)
+        ap = self.abspath(file)
+        ov = self.overlay
+        if any(c in mode for c in "wax+"):
+            return self.open_for_write(file, ap, rel, mode, a, kw)
+        if ap in ov.removed:
+            self.log("open", file=rel or "<outside the tree>", removed_by_tool=True)
+            raise _oserror("ENOENT", os.fspath(file))
+        if ap in ov.files:
+            self.log("open", file=rel or "<outside the tree>", overlay=True)
+            self.probe("read_own_file")
+            if "b" in mode:
+                return io.BytesIO(ov.files[ap])
+            enc = kw.get("encoding") or (a[1] if len(a) > 1 else None) or "utf-8"
+            return io.TextIOWrapper(io.BytesIO(ov.files[ap]), encoding=enc, errors=kw.get("errors"), newline=kw.get("newline"))
         if rel is None:
             return self.real_open(file, mode, *a, **kw)
-        if any(c in mode for c in "wax+"):
-            self.repo_writes.append(rel)
-            self.log("open_for_write", file=rel, mode=mode)
-            raise _oserror("EROFS", os.fspath(file))
         if self.stray(rel):
             self.log("open", file=rel, stray=True)
             if rel.endswith(".d"):
@@ -650,6 +832,105 @@ class Sim:
         else:
             real = self.real_open(file, mode, *a, **kw)
         return _CountingFile(self, rel, real, self.fault_for("read", rel))
+
+    def abspath(self, path):
+        try:
+            p = os.fspath(path)
+        except TypeError:
+            return None
+        if isinstance(p, bytes):
+            p = os.fsdecode(p)
+        return os.path.normpath(os.path.join(self.cwd, p))
+
+    def exists_anywhere(self, ap):
+        if ap in self.overlay.removed:
+            return False
+        if ap in self.overlay.files or ap in self.overlay.dirs:
+            return True
+        try:
+            self.real_lstat(ap)
+            return True
+        except OSError:
+            return False
+
+    def open_for_write(self, file, ap, rel, mode, a, kw):
+        """Writes never reach the real file system: they land in the overlay."""
+        ov = self.overlay
+        self.log("open_for_write", file=rel or "<outside the tree>", mode=mode)
+        self.probe("tool_wrote_a_file")
+        if rel is not None:
+            self.repo_writes.append(rel)
+        if self.plan["env"].get("readonly_tree") and rel is not None:
+            raise _oserror("EROFS", os.fspath(file))
+        parent = os.path.dirname(ap)
+        if not (parent in ov.dirs or os.path.isdir(parent)):
+            raise _oserror("ENOENT", os.fspath(file))
+        exists = self.exists_anywhere(ap)
+        if "x" in mode and exists:
+            raise OSError(_errno.EEXIST, os.strerror(_errno.EEXIST), os.fspath(file))
+        initial = b""
+        if ("a" in mode or "r" in mode) and exists:
+            if ap in ov.files:
+                initial = ov.files[ap]
+            else:
+                with self.real_open(ap, "rb") as f:
+                    initial = f.read()
+        elif "r" in mode and not exists:
+            raise _oserror("ENOENT", os.fspath(file))
+        w = _OverlayWriter(ov, ap, initial, append=("a" in mode))
+        if "b" in mode:
+            return w
+        enc = kw.get("encoding") or (a[1] if len(a) > 1 else None) or "utf-8"
+        return io.TextIOWrapper(w, encoding=enc, errors=kw.get("errors"), newline=kw.get("newline"), write_through=True)
+
+    def sim_replace(self, src, dst, *a, **kw):
+        s_ap, d_ap = self.abspath(src), self.abspath(dst)
+        ov = self.overlay
+        self.log("rename", src=self.relproj(src) or "<outside the tree>", dst=self.relproj(dst) or "<outside the tree>")
+        if s_ap in ov.files:
+            ov.files[d_ap] = ov.files.pop(s_ap)
+            ov.mtime[d_ap] = ov.mtime.pop(s_ap, 0)
+            ov.removed.discard(d_ap)
+            return None
+        if not self.exists_anywhere(s_ap):
+            raise _oserror("ENOENT", os.fspath(src))
+        # a real file (e.g. a temporary file made with os.open): its content moves into the overlay
+        with self.real_open(s_ap, "rb") as f:
+            ov.files[d_ap] = f.read()
+        ov.stamp(d_ap)
+        ov.removed.discard(d_ap)
+        if self.relproj(src) is None:
+            try:
+                self.real_remove(s_ap)
+            except OSError:
+                pass
+        else:
+            ov.removed.add(s_ap)
+        return None
+
+    def sim_remove(self, path, *a, **kw):
+        ap = self.abspath(path)
+        ov = self.overlay
+        self.log("remove", file=self.relproj(path) or "<outside the tree>")
+        if ap in ov.files:
+            del ov.files[ap]
+            return None
+        if not self.exists_anywhere(ap):
+            raise _oserror("ENOENT", os.fspath(path))
+        if self.relproj(path) is None:
+            return self.real_remove(path, *a, **kw)
+        ov.removed.add(ap)  # a project file: hidden from now on, never really deleted
+        return None
+
+    def sim_mkdir(self, path, mode=0o777, *a, **kw):
+        ap = self.abspath(path)
+        self.log("mkdir", dir=self.relproj(path) or "<outside the tree>")
+        if self.exists_anywhere(ap):
+            raise OSError(_errno.EEXIST, os.strerror(_errno.EEXIST), os.fspath(path))
+        if self.relproj(path) is None:
+            return self.real_mkdir(path, mode, *a, **kw)
+        self.overlay.dirs.add(ap)
+        return None
 
     # -- clock ---------------------------------------------------------------------------------
     def now(self):
@@ -707,6 +988,11 @@ class Sim:
             "stat": os.stat,
             "lstat": os.lstat,
             "access": os.access,
+            "replace": os.replace,
+            "rename": os.rename,
+            "remove": os.remove,
+            "unlink": os.unlink,
+            "mkdir": os.mkdir,
             "open": builtins.open,
             "io_open": io.open,
             "Popen": _subprocess_mod.Popen,
@@ -719,14 +1005,18 @@ class Sim:
             "dunder_stdout": sys.__stdout__,
             "os_write": os.write,
             "which": shutil.which,
+            "getpid": os.getpid,
         }
         self.real_listdir = os.listdir
         self.real_scandir = os.scandir
         self.real_stat = os.stat
         self.real_lstat = os.lstat
         self.real_access = os.access
+        self.real_remove = os.remove
+        self.real_mkdir = os.mkdir
         self.real_open = builtins.open
         self.real_datetime = _datetime_mod.datetime
+        self.real_popen = _subprocess_mod.Popen
         self.cwd = self.repo
         self.tool_filename = _tree.tool_path()
 
@@ -785,6 +1075,11 @@ class Sim:
             os.stat = self.sim_stat
             os.lstat = self.sim_lstat
             os.access = self.sim_access
+            os.replace = self.sim_replace
+            os.rename = self.sim_replace
+            os.remove = self.sim_remove
+            os.unlink = self.sim_remove
+            os.mkdir = self.sim_mkdir
             builtins.open = self.sim_open
             io.open = self.sim_open
             _subprocess_mod.Popen = FakePopen
@@ -823,6 +1118,7 @@ class Sim:
                 return saved["which"](cmd, *a, **kw)
 
             shutil.which = sim_which
+            os.getpid = lambda: 4242  # process identity is not something a result may depend on
             sys.settrace(self.tracer)
             try:
                 runpy.run_path(self.tool_filename, run_name="__main__")
@@ -869,11 +1165,17 @@ class Sim:
             sys.__stdout__ = saved["dunder_stdout"]
             os.write = saved["os_write"]
             shutil.which = saved["which"]
+            os.getpid = saved["getpid"]
             _datetime_mod.date = saved["date"]
             _datetime_mod.datetime = saved["datetime"]
             _subprocess_mod.Popen = saved["Popen"]
             io.open = saved["io_open"]
             builtins.open = saved["open"]
+            os.mkdir = saved["mkdir"]
+            os.unlink = saved["unlink"]
+            os.remove = saved["remove"]
+            os.rename = saved["rename"]
+            os.replace = saved["replace"]
             os.access = saved["access"]
             os.lstat = saved["lstat"]
             os.stat = saved["stat"]
@@ -890,6 +1192,7 @@ class Sim:
         h.update(json.dumps(self.events, sort_keys=True).encode())
         h.update(out_sha.encode())
         h.update(str(self.steps).encode())
+        h.update(self.overlay.digest().encode())
         res = {
             "status": status,
             "hang": hang,
@@ -910,6 +1213,8 @@ class Sim:
             "clock_reads": self.clock_reads,
             "git_calls": self.git_calls,
             "repo_writes": self.repo_writes,
+            "overlay_digest": self.overlay.digest(),
+            "overlay_files": sorted(self.relproj(f) or f for f in self.overlay.files),
             "probes": self.probes,
             "trace_hash": h.hexdigest(),
         }
@@ -943,6 +1248,17 @@ def argv_of(sel):
 def run_plan(plan, twin=None, step_budget=DEFAULT_STEP_BUDGET, event_cap=DEFAULT_EVENT_CAP):
     sim = Sim(plan, twin=twin, step_budget=step_budget, event_cap=event_cap)
     return sim.run()
+
+
+def run_session(invocations, step_budget=DEFAULT_STEP_BUDGET, event_cap=DEFAULT_EVENT_CAP):
+    """Several invocations, one after the other, on the same simulated machine: whatever the tool
+    wrote during one invocation (cache files, ...) is there for the next."""
+    overlay = Overlay()
+    out = []
+    for inv in invocations:
+        sim = Sim(inv, overlay=overlay, step_budget=step_budget, event_cap=event_cap)
+        out.append(sim.run())
+    return out
 
 
 def footprint(res):
